@@ -485,6 +485,24 @@ pub fn single_faults(doc: &G, n: usize, strkeys: bool) -> Vec<(String, G)> {
                             out.push((format!("retarget {:?} to key {}", p, k), d));
                         }
                     }
+                    // further undeclared keys: values a key type treats specially (the
+                    // empty string, a prefix / extension / case variant of a declared key,
+                    // the extremes of u8)
+                    let odd: Vec<G> = if strkeys {
+                        let k0 = match key_g(0, true) { G::Str(s) => s, _ => String::new() };
+                        let mut cut = k0.clone();
+                        cut.pop();
+                        vec![G::Str(String::new()), G::Str(cut), G::Str(format!("{}0", k0)), G::Str(format!("{} ", k0)), G::Str(k0.to_uppercase()), G::Str("\u{0}".into()), G::Str(",".into())]
+                    } else {
+                        vec![G::Int(255), G::Int(128), G::Int(127), G::Int(n as i128 + 1)]
+                    };
+                    for kg in odd {
+                        if kg != *scalar {
+                            let mut d = doc.clone();
+                            *get_mut(&mut d, p) = kg.clone();
+                            out.push((format!("retarget {:?} to the undeclared key {:?}", p, kg), d));
+                        }
+                    }
                 }
             }
         }
